@@ -94,7 +94,11 @@ func genPacketSpec(t *core.Tape, maxPayload int) *pktSpec {
 		}
 	case profLegacy:
 		s.legacyProfile = drawLegacyProfile(t)
-		s.exts = []extEl{{0, t.Bytes(4 * t.Intn(5))}}
+		words := t.Intn(5)
+		if t.Chance(1, 6) {
+			words = 60 + t.Intn(200) // RFC 3550 extensions are not limited to 255 bytes
+		}
+		s.exts = []extEl{{0, t.Bytes(4 * words)}}
 	}
 	switch t.Weighted(6, 2, 1, 1) {
 	case 0:
